@@ -23,7 +23,7 @@ for fam in fams:
         cases.append(dict(id=cid, fam=p["fam"], body=p["body"], fnames=fn, variants=vs))
         bodies[cid] = p["body"]
     pl = refine.Pipeline("bl_" + fam, tier="thorough")
-    pl.run(cases, sem=(pid == "C01"), pair=(pid != "C01"), maxin=24, timeout=5000, small_fams=checks_refine.SMALL_FAMS)
+    pl.run(cases, sem=(pid == "C01"), pair=(pid != "C01"), maxin=48, timeout=7000, small_fams=checks_refine.SMALL_FAMS)
     bad = {}
     for m in pl.mismatches:
         bad.setdefault(m["id"], []).append(m)
